@@ -1,6 +1,6 @@
 // C04 "one call from a cancelled pre-state": one scheduling entry point (VF_OP) of TaskSet
 // (VF_SET=0) / ConcurrentTaskSet (VF_SET=1, TaskCost VF_COST: 0 kLightweight, 1 kHeavy = the
-// private schedulePlaced / scheduleBulkImplPlaced route) on a real ThreadPool of VF_POOL_N threads
+// private schedulePlaced / scheduleBulkImplPlaced route) on the contract ThreadPool (shim/dispenso/thread_pool.h) of VF_POOL_N threads
 // (virtual workers), with the set already cancelled (VF_HOW: 0 cancel(); 1 a ParentCascadeCancel::kOn
 // parent that was cancelled before the child was constructed; 2 ... after) and an arbitrary load
 // pre-state (caller is / is not a pool thread, inline depth, pool work pending, in-flight tasks of
